@@ -18,9 +18,22 @@ import Uft.Model.MemRegion
    MR MEM <fillhex> <addr>:<hex>;…|-                  -> ok      (memory contents)
    MR STR <hexptr> <room>  /  MR OBJ <hexbase> <room> -> null | bad=<hex> | str=<hex|-> | fault=<hex> why=<pagecross|heapslack|stackslack|stale>
                                                          followed by " tidy=<0|1> n=<cache entries>"
+   DUMPRAW <fixed 0|1> <size> <hex>                   -> v=<hex> wr=<bytes stored into the 8-byte temporary>
+   option sources (the writer's and the reader's spec list of a function):
+   SRC FIX <ret 0|1> <auto 0|1> <compat 0|1>         -> ok      (XFix; 0 0 0 = the code as it is)
+   SRC AUTO <f> <A|R> <spec> …                        -> ok      (what the auto-args table / DWARF know about function f)
+   SRC RESET                                          -> ok      (forget the auto table)
+   SRC LISTS <nf> <item> …                            -> "f=<k> w=<lspec,…|-> r=<lspec,…|-> la=<0|1> lr=<0|1>" per function k < nf with an entry, joined by " | " ("-" if none)
+   SRC INFO <item> …                                  -> args=<xitem;…|-> rets=<xitem;…|-> old=<0|1>
+        item  = <T|A|R>/<tag>/<exact>/<auto-args>/<name has "retval">/<f.f.f|->/<spec;spec|->
+        lspec = <spec>:<exact>      xitem = <T|A|R><tag>@<spec,spec|->
 -/
 namespace Driver.C09
 open Uft.Argbuf
+
+structure SrcSt where
+  xf : XFix := XFix.none
+  auto : List ((Nat × Bool) × List Spec) := []
 
 structure DS where
   fx : Fix := Fix.none
@@ -32,6 +45,7 @@ structure DS where
   cache : Uft.MemRegion.Cache := {}
   space : Uft.MemRegion.Space := []
   cont : Uft.MemRegion.Contents := {}
+  src : SrcSt := {}
 
 def parseFmt : String → Option Fmt
   | "d" => some .auto | "i" => some .sint | "u" => some .uint | "x" => some .hex | "o" => some .oct
@@ -206,9 +220,79 @@ def stepMR (s : DS) (ws : List String) : DS × String :=
     | _, _ => (s, "bad-op")
   | _ => (s, "bad-op")
 
+def fmtLetter : Fmt → String
+  | .auto => "d" | .sint => "i" | .uint => "u" | .hex => "x" | .oct => "o" | .str => "s" | .chr => "c"
+  | .flt => "f" | .stdstr => "S" | .ptr => "p" | .enm => "e" | .strct => "t"
+
+def showSpec (sp : Spec) : String :=
+  s!"{sp.idx}:{fmtLetter sp.fmt}:{sp.size}:{sp.ty}:{sp.loc}:" ++
+    (if sp.sregs.isEmpty then "-" else ".".intercalate (sp.sregs.map toString))
+
+def showLSpec (o : LSpec) : String := showSpec o.sp ++ (if o.exact then ":1" else ":0")
+
+def parseItem (w : String) : Option (Src × Item) :=
+  match w.splitOn "/" with
+  | [src, tag, ex, au, nr, fns, specs] =>
+    let src? : Option Src := if src = "T" then some .trig else if src = "A" then some .arg else if src = "R" then some .ret else none
+    match src?, tag.toNat?, parseList (fun x => x.toNat?) fns ".", parseList parseSpec specs ";" with
+    | some src, some tag, some fns, some specs =>
+      some (src, { tag := tag, fns := fns, exact := ex != "0", specs := specs, autoArgs := au != "0", nameRetval := nr != "0" })
+    | _, _, _, _ => none
+  | _ => none
+
+def parseItems (ws : List String) : Option (List Item × List Item × List Item) :=
+  ws.foldr (fun w acc => match acc, parseItem w with
+    | some (t, a, r), some (.trig, it) => some (it :: t, a, r)
+    | some (t, a, r), some (.arg, it) => some (t, it :: a, r)
+    | some (t, a, r), some (.ret, it) => some (t, a, it :: r)
+    | _, _ => none) (some ([], [], []))
+
+def showXItems (pfx : String) (l : List Item) : List String :=
+  l.map fun it => s!"{pfx}{it.tag}@" ++ (if it.specs.isEmpty then "-" else ",".intercalate (it.specs.map showSpec))
+
+def SrcSt.autoFn (s : SrcSt) : Nat → Bool → List Spec := fun f b => (s.auto.lookup (f, b)).getD []
+
+def stepSrc (s : SrcSt) (ws : List String) : SrcSt × String :=
+  match ws with
+  | ["FIX", a, b, c] => ({ s with xf := ⟨a != "0", b != "0", c != "0"⟩ }, "ok")
+  | ["RESET"] => ({ s with auto := [] }, "ok")
+  | "AUTO" :: f :: k :: specs =>
+    match f.toNat?, specs.foldr (fun x acc => match acc, parseSpec x with
+        | some l, some v => some (v :: l) | _, _ => none) (some []) with
+    | some f, some l => ({ s with auto := ((f, k == "R"), l) :: s.auto.filter (fun e => e.1 != (f, k == "R")) }, "ok")
+    | _, _ => (s, "bad-op")
+  | "LISTS" :: nf :: items =>
+    match nf.toNat?, parseItems items with
+    | some nf, some (t, a, r) =>
+      let outs := (List.range nf).filterMap fun f =>
+        let w := writerList s.autoFn t a r f
+        let rd := readerList s.autoFn s.xf t a r f
+        if w.isEmpty && rd.isEmpty then none else
+        let sh := fun (l : List LSpec) => if l.isEmpty then "-" else ",".intercalate (l.map showLSpec)
+        let la := if layout false w == layout false rd then 1 else 0
+        let lr := if layout true w == layout true rd then 1 else 0
+        some s!"f={f} w={sh w} r={sh rd} la={la} lr={lr}"
+      (s, if outs.isEmpty then "-" else " | ".intercalate outs)
+    | _, _ => (s, "bad-op")
+  | "INFO" :: items =>
+    match parseItems items with
+    | some (t, a, r) =>
+      let as := showXItems "T" (extractArgs s.xf t) ++ showXItems "A" a
+      let rs := showXItems "T" (extractRets s.xf t) ++ showXItems "R" r
+      let sh := fun (l : List String) => if l.isEmpty then "-" else ";".intercalate l
+      let old := if oldPass s.xf (infoArgs s.xf t a) (infoRets s.xf t r) then 1 else 0
+      (s, s!"args={sh as} rets={sh rs} old={old}")
+    | none => (s, "bad-op")
+  | _ => (s, "bad-op")
+
 def step' (s : DS) (ws : List String) : DS × String :=
   match ws with
   | "MR" :: r => stepMR s r
+  | ["DUMPRAW", fx, sz, h] =>
+    match sz.toNat?, parseHexBytes h with
+    | some sz, some bs => let r := dumpRaw (fx != "0") sz bs; (s, s!"v={hexOfNat r.1} wr={r.2}")
+    | _, _ => (s, "bad-op")
+  | "SRC" :: r => let (x, o) := stepSrc s.src r; ({ s with src := x }, o)
   | _ => step s ws
 
 def model : Model := { σ := DS, init := {}, step := step' }
